@@ -22,7 +22,6 @@ def run(ctx: CheckContext):
     analyse(ctx, p)
     ctx.floor("INVAL-I1", 4)
     ctx.floor("INVAL-I2", 2)
-    ctx.floor("INVAL-I3", 1)
     ctx.assumptions += [
         "decides index/view bookkeeping across insertions only; the flattened values, the inserted temperature and tolerance handling are numeric and NOT decided",
         "numpy semantics: table.col[...] is a view of the buffer that insert_temperature_interval replaces",
